@@ -91,7 +91,7 @@ func (c11) Gen(tier string, seed int64, emit func([]Ev)) {
 	r := rand.New(rand.NewSource(seed))
 	reps := 1
 	if tier == "thorough" {
-		reps = 10
+		reps = 80
 	}
 	for rep := 0; rep < reps; rep++ {
 		for sid := 0; sid < 256; sid++ {
